@@ -666,3 +666,41 @@ func Snapshot(prefix string) string {
 	}
 	return sb.String()
 }
+
+// Dump serialises the whole tree (for vh.Memo: a concrete prefix is executed once per
+// worker and its result restored on the following paths).
+func Dump() string {
+	var sb strings.Builder
+	for _, q := range S.paths() {
+		n := S.nodes[q]
+		kind := "F"
+		if n.dir {
+			kind = "D"
+		}
+		sb.WriteString(kind + " " + strconv.FormatInt(vclock.Ns(n.mtime), 10) + " " + strconv.Itoa(len(n.data)) + " " + q + "\n")
+		sb.Write(n.data)
+		sb.WriteString("\n")
+	}
+	sb.WriteString("T " + strconv.Itoa(S.tmpSeq) + "\n")
+	return sb.String()
+}
+
+// Restore replaces the tree by a dumped one (mutation counters restart at zero).
+func Restore(d string) {
+	Reset()
+	for len(d) > 0 {
+		nl := strings.Index(d, "\n")
+		head := d[:nl]
+		d = d[nl+1:]
+		if strings.HasPrefix(head, "T ") {
+			S.tmpSeq, _ = strconv.Atoi(head[2:])
+			continue
+		}
+		f := strings.SplitN(head, " ", 4)
+		ns, _ := strconv.ParseInt(f[1], 10, 64)
+		ln, _ := strconv.Atoi(f[2])
+		data := d[:ln]
+		d = d[ln+1:]
+		S.nodes[f[3]] = &node{dir: f[0] == "D", data: []byte(data), mtime: vclock.At(ns)}
+	}
+}
